@@ -171,7 +171,7 @@ EXPECTED_SM_ATTRS = {'current_state', 'provider', 'timer', 'store_in_file', 'get
 class Env(object):
     """One execution: a fresh provider, its simulated socket, clock, and the observation log."""
 
-    def __init__(self, role, history, budget=400, deviations=None, recv_limit=None, prequeue=0,
+    def __init__(self, role, history, budget=400, deviations=None, recv_limit=None, prequeue=0, dev_guard=None,
                  store_in_file=frozenset(), get_file_cb=None):
         from pynetdicom2 import dulprovider, asceprovider
         from pydicom import uid
@@ -192,6 +192,7 @@ class Env(object):
         self.exc = None
         self.deviations = dict(deviations or {})   # loop-head index -> inject there although not quiescent
         self.recv_limit = recv_limit
+        self.dev_guard = dev_guard
         self.nonquiescent_heads = 0
         self.final_idle = False
         if role == 'ac':
@@ -261,7 +262,8 @@ class Env(object):
         q = self.quiescent(p)
         if not q:
             self.nonquiescent_heads += 1
-            if self.deviations.get(self.nonquiescent_heads) and self.pos < len(self.history):
+            if self.deviations.get(self.nonquiescent_heads) and self.pos < len(self.history) and \
+                    (self.dev_guard is None or self.dev_guard(self.pos)):
                 self._inject(p, deviation=True)
             return False
         # quiescent: close the current step and inject the next event; every step runs at least one loop
